@@ -14,9 +14,6 @@ MUTANTS = [
       'pattern = rf"^\\s*(\\d+)\\s*({unit_pattern})\\s*$"', 'pattern = rf"^.*?(\\d+)\\s*({unit_pattern})\\s*$"', "C48.1"),
     M("dur-unit-without-multiplier", TF,
       '    DAYS1 = "days"\n', '    DAYS1 = "days"\n    WEEKS0 = "week"\n    WEEKS1 = "weeks"\n', "C48.1"),
-    M("dur-key-is-number-group", TF,
-      "    unit = match.group(2).lower()", "    unit = match.group(0).strip().lstrip('0123456789').strip().lower()", None,
-      note="behaviour-preserving but outside what the rule can follow? no: it is followed as a different group -> see dur-key-group"),
     M("dur-month-30", TF, "    MONTH = 31*DAY\n", "    MONTH = 30*DAY\n", "C48.1",
       note="also caught by test_time_format"),
     M("dur-result-not-multiplied", TF,
@@ -88,8 +85,9 @@ MUTANTS = [
     M("benign-client-temp", CL,
       "            cutoff_date = parse_date(cutoff_date)", "            cutoff_text = cutoff_date\n            cutoff_date = parse_date(cutoff_text)", None),
     # the small repairs of the findings must satisfy the rules
+    M("benign-size-space-repair", AB,
+      'm = re.match(r"^(\\d+)([KMGTPE]?[I]?[B]?)$", s.upper())', 'm = re.match(r"^(\\d+)\\s*([KMGTPE]?[I]?[B]?)$", s.upper())', None),
     M("benign-date-end-anchored", TF, "(?P<subsecond>\\.\\d+)?\")):", "(?P<subsecond>\\.\\d+)?$\")):", None),
     # ---- vanished anchor
     M("vanish-parse-duration", TF, "def parse_duration(s):", "def parse_duration_string(s):", "ANALYSIS-ERROR"),
 ]
-MUTANTS = [m for m in MUTANTS if m.id != "dur-key-is-number-group"]
